@@ -19,7 +19,7 @@
 //! log-sum-exp.
 
 use linfa::prelude::*;
-use linfa::DatasetBase;
+use linfa::{DatasetBase, Float};
 use linfa_clustering::{GaussianMixtureModel, GmmError, GmmInitMethod};
 use lvmc_core::refmath::{self, Mat};
 use lvmc_core::{guarded, json, par_sweep, Ctx, Level, Value, Violation};
@@ -34,18 +34,91 @@ use std::sync::Mutex;
 // constants: every bound / tolerance is repeated in ctx.assume in main()
 // ------------------------------------------------------------------------------------------
 
-const SCALES: [f64; 6] = [10.0, 38.0, 39.0, 100.0, 1e3, 1e6];
-/// ln(f64::MIN_POSITIVE): below it exp() is subnormal (loses bits), below -745.13 it is 0.
-const LN_MIN_NORMAL: f64 = -708.3964185322641;
-const TOL_SUM: f64 = 1e-9;
-const TOL_SYM_REL: f64 = 1e-10;
-const TOL_MOMENT_REL: f64 = 1e-9;
-const TOL_BOX_REL: f64 = 1e-9;
-/// safety factor on cond * (maha + d) bounding the discrepancy between two Cholesky-based
-/// evaluations of the same Gaussian log density (eps = 1.1e-16, so ~900 eps).
-const ERR_COND: f64 = 1e-13;
-/// posterior comparison is skipped (indeterminate) when the error bound exceeds this
-const ERR_SKIP: f64 = 1e-4;
+/// Mahalanobis distances of the far queries: 38 / 39 bracket the f64 exp underflow (30, 35 lead up to
+/// it); 12..30 cover the f32 underflow band (exp is subnormal below -87.3 and 0 below -104, i.e. from
+/// about 13.2 / 14.4 standard deviations on).
+const SCALES_F64: [f64; 8] = [10.0, 30.0, 35.0, 38.0, 39.0, 100.0, 1e3, 1e6];
+const SCALES_F32: [f64; 12] = [10.0, 12.0, 14.0, 16.0, 20.0, 25.0, 30.0, 38.0, 39.0, 100.0, 1e3, 1e6];
+const LADDER: [u64; 5] = [1, 2, 3, 5, 10];
+
+/// Tolerances per float type of the subject (all repeated in ctx.assume).
+#[derive(Clone, Copy)]
+struct Tols {
+    /// |sum - 1| of a predict_proba row
+    sum: f64,
+    /// |sum - 1| of the weights (n <= 60 accumulated responsibilities)
+    wsum: f64,
+    sym: f64,
+    moment: f64,
+    boxr: f64,
+    diag_rel: f64,
+    /// safety factor on cond * (maha + d) bounding the discrepancy between two Cholesky-based
+    /// evaluations of the same Gaussian log density (~900 eps of the float type)
+    err_cond: f64,
+    /// posterior comparison is skipped (indeterminate) when the error bound exceeds this
+    err_skip: f64,
+    ps_cond: f64,
+    ps_floor: f64,
+    ps_skip: f64,
+    prob_floor: f64,
+    tie: f64,
+    margin_rel: f64,
+    mean_round: f64,
+    /// ln(MIN_POSITIVE): below it exp() is subnormal (loses bits)
+    ln_min_normal: f64,
+    /// slightly below the point where exp() becomes 0
+    ln_zero: f64,
+    /// a covariance without reference Cholesky factor is indeterminate when its smallest eigenvalue is
+    /// above -pd_rel * largest (f64: only with reg_covar = 0)
+    pd_rel: f64,
+    pd_any_reg: bool,
+    scales: &'static [f64],
+}
+
+const TOLS_F64: Tols = Tols {
+    sum: 1e-9,
+    wsum: 1e-9,
+    sym: 1e-10,
+    moment: 1e-9,
+    boxr: 1e-9,
+    diag_rel: 1e-12,
+    err_cond: 1e-13,
+    err_skip: 1e-4,
+    ps_cond: 1e-13,
+    ps_floor: 1e-12,
+    ps_skip: 1e-6,
+    prob_floor: 1e-9,
+    tie: 1e-12,
+    margin_rel: 1e-9,
+    mean_round: 1e-10,
+    ln_min_normal: -708.3964185322641,
+    ln_zero: -745.2,
+    pd_rel: 1e-12,
+    pd_any_reg: false,
+    scales: &SCALES_F64,
+};
+const TOLS_F32: Tols = Tols {
+    sum: 1e-5,
+    wsum: 5e-5,
+    sym: 1e-5,
+    moment: 5e-5,
+    boxr: 5e-5,
+    diag_rel: 1e-5,
+    err_cond: 1e-5,
+    err_skip: 1e-2,
+    ps_cond: 1e-5,
+    ps_floor: 1e-5,
+    ps_skip: 1e-2,
+    prob_floor: 1e-5,
+    tie: 1e-6,
+    margin_rel: 1e-6,
+    mean_round: 1e-4,
+    ln_min_normal: -87.33654475055310,
+    ln_zero: -104.04,
+    pd_rel: 1e-5,
+    pd_any_reg: true,
+    scales: &SCALES_F32,
+};
 
 // signatures of the one defect known from the design probe (no max-shift in the log-sum-exp of
 // `estimate_log_prob_resp`); each is assigned only in the regime where the closed form applies
@@ -72,6 +145,19 @@ struct Case {
     tolerances: Vec<f64>,
     n_runs: Vec<u64>,
     max_iters: Vec<u64>,
+    /// "sweep" (fit + parameter + query oracles) | "ladder" (iteration budgets: outcome kind only)
+    #[serde(default = "default_kind")]
+    kind: String,
+    /// float type of the subject: "f64" | "f32"
+    #[serde(default = "default_float")]
+    float: String,
+}
+
+fn default_kind() -> String {
+    "sweep".to_string()
+}
+fn default_float() -> String {
+    "f64".to_string()
 }
 
 #[derive(Clone, Debug)]
@@ -113,6 +199,8 @@ fn single_case_json(case: &Case, cfg: &Cfg, at: Value) -> Value {
         tolerances: vec![cfg.tol],
         n_runs: vec![cfg.n_runs],
         max_iters: vec![cfg.max_iter],
+        kind: case.kind.clone(),
+        float: case.float.clone(),
     };
     let mut v = serde_json::to_value(&c).unwrap();
     v.as_object_mut().unwrap().insert("at".into(), at);
@@ -133,7 +221,7 @@ impl Cnt {
     }
     fn merge(&mut self, o: &Cnt) {
         for (k, v) in &o.0 {
-            if k.starts_with("max_") {
+            if k.contains("max_log10") {
                 self.max(k, *v);
             } else {
                 self.add(k, *v);
@@ -351,34 +439,61 @@ fn max_abs(m: &Mat) -> f64 {
 // ------------------------------------------------------------------------------------------
 
 /// Returns true when the fit produced a model (so the parameter and query oracles ran).
-fn run_fit(case: &Case, cfg: &Cfg, cnt: &mut Cnt, viols: &mut Vec<Violation>) -> bool {
+fn do_fit<F: Float>(case: &Case, cfg: &Cfg, max_iter: u64) -> Result<Result<GaussianMixtureModel<F>, GmmError>, String> {
     let n = case.data.len();
     let d = case.data[0].len();
-    let k = case.n_clusters;
-    let rec = Array2::from_shape_fn((n, d), |(i, j)| case.data[i][j]);
+    let rec = Array2::from_shape_fn((n, d), |(i, j)| F::cast(case.data[i][j]));
     let ds = DatasetBase::from(rec);
     let init = match case.init.as_str() {
         "kmeans" => GmmInitMethod::KMeans,
         "random" => GmmInitMethod::Random,
         other => panic!("unknown init {}", other),
     };
-    let cj = |at: Value| single_case_json(case, cfg, at);
-    cnt.add("fits", 1);
-    let cfg_txt = format!(
-        "dataset {} ({}x{}), {} components, {} init, seed {}, reg_covar {:e}, tolerance {:e}, n_runs {}, max_iter {}",
-        case.dataset, n, d, k, case.init, cfg.seed, cfg.reg, cfg.tol, cfg.n_runs, cfg.max_iter
-    );
-
-    let fit = guarded(|| {
-        GaussianMixtureModel::<f64>::params(k)
+    guarded(|| {
+        GaussianMixtureModel::<F>::params(case.n_clusters)
             .init_method(init)
-            .reg_covariance(cfg.reg)
-            .tolerance(cfg.tol)
+            .reg_covariance(F::cast(cfg.reg))
+            .tolerance(F::cast(cfg.tol))
             .n_runs(cfg.n_runs)
-            .max_n_iterations(cfg.max_iter)
+            .max_n_iterations(max_iter)
             .with_rng(Xoshiro256Plus::seed_from_u64(cfg.seed))
             .fit(&ds)
-    });
+    })
+}
+
+fn cfg_text(case: &Case, cfg: &Cfg) -> String {
+    format!(
+        "dataset {} ({}x{}), {}, {} components, {} init, seed {}, reg_covar {:e}, tolerance {:e}, n_runs {}, max_iter {}",
+        case.dataset,
+        case.data.len(),
+        case.data[0].len(),
+        case.float,
+        case.n_clusters,
+        case.init,
+        cfg.seed,
+        cfg.reg,
+        cfg.tol,
+        cfg.n_runs,
+        cfg.max_iter
+    )
+}
+
+fn f64_of<F: Float>(x: F) -> f64 {
+    x.to_f64().unwrap()
+}
+
+fn run_fit<F: Float>(case: &Case, cfg: &Cfg, t: &Tols, cnt: &mut Cnt, viols: &mut Vec<Violation>) -> bool {
+    let n = case.data.len();
+    let d = case.data[0].len();
+    let k = case.n_clusters;
+    // the data as the subject sees them (rounded to F)
+    let data: Mat = case.data.iter().map(|r| r.iter().map(|&v| f64_of(F::cast(v))).collect()).collect();
+    let reg = f64_of(F::cast(cfg.reg));
+    let cj = |at: Value| single_case_json(case, cfg, at);
+    cnt.add("fits", 1);
+    let cfg_txt = cfg_text(case, cfg);
+
+    let fit = do_fit::<F>(case, cfg, cfg.max_iter);
     let model = match fit {
         Err(p) => {
             cnt.add("fit_panics", 1);
@@ -402,9 +517,9 @@ fn run_fit(case: &Case, cfg: &Cfg, cnt: &mut Cnt, viols: &mut Vec<Violation>) ->
     cnt.add("fits_ok", 1);
 
     // ---------------- published parameters as plain vectors ----------------
-    let w: Vec<f64> = model.weights().to_vec();
-    let mu: Mat = model.means().rows().into_iter().map(|r| r.to_vec()).collect();
-    let to_mats = |a: &ndarray::Array3<f64>| -> Vec<Mat> { a.outer_iter().map(|m| m.rows().into_iter().map(|r| r.to_vec()).collect()).collect() };
+    let w: Vec<f64> = model.weights().iter().map(|&v| f64_of(v)).collect();
+    let mu: Mat = model.means().rows().into_iter().map(|r| r.iter().map(|&v| f64_of(v)).collect()).collect();
+    let to_mats = |a: &ndarray::Array3<F>| -> Vec<Mat> { a.outer_iter().map(|m| m.rows().into_iter().map(|r| r.iter().map(|&v| f64_of(v)).collect()).collect()).collect() };
     let cov: Vec<Mat> = to_mats(model.covariances());
     let prec: Vec<Mat> = to_mats(model.precisions());
     let at_model = |what: &str| cj(json!({"phase": "model", "check": what}));
@@ -441,16 +556,16 @@ fn run_fit(case: &Case, cfg: &Cfg, cnt: &mut Cnt, viols: &mut Vec<Violation>) ->
     if w.iter().any(|&v| !(v > 0.0)) {
         viols.push(Violation::new("gmm.fit.weight_not_positive", format!("{}: weights {:?}", cfg_txt, w), at_model("weights_positive")));
     }
-    if (wsum - 1.0).abs() > TOL_SUM {
-        viols.push(Violation::new("gmm.fit.weights_do_not_sum_to_one", format!("{}: weights {:?} sum to {} (expected 1 +- {:e})", cfg_txt, w, wsum, TOL_SUM), at_model("weights_sum")));
+    if (wsum - 1.0).abs() > t.wsum {
+        viols.push(Violation::new("gmm.fit.weights_do_not_sum_to_one", format!("{}: weights {:?} sum to {} (expected 1 +- {:e})", cfg_txt, w, wsum, t.wsum), at_model("weights_sum")));
     }
 
     // bounding box
-    let xmax = case.data.iter().flatten().fold(0.0f64, |s, v| s.max(v.abs()));
+    let xmax = data.iter().flatten().fold(0.0f64, |s, v| s.max(v.abs()));
     for j in 0..d {
-        let lo = case.data.iter().map(|r| r[j]).fold(f64::INFINITY, f64::min);
-        let hi = case.data.iter().map(|r| r[j]).fold(f64::NEG_INFINITY, f64::max);
-        let slack = TOL_BOX_REL * (1.0 + xmax);
+        let lo = data.iter().map(|r| r[j]).fold(f64::INFINITY, f64::min);
+        let hi = data.iter().map(|r| r[j]).fold(f64::NEG_INFINITY, f64::max);
+        let slack = t.boxr * (1.0 + xmax);
         if let Some(c) = (0..k).find(|&c| mu[c][j] < lo - slack || mu[c][j] > hi + slack) {
             viols.push(Violation::new(
                 "gmm.fit.mean_outside_bounding_box",
@@ -473,10 +588,10 @@ fn run_fit(case: &Case, cfg: &Cfg, cnt: &mut Cnt, viols: &mut Vec<Violation>) ->
                 asym = asym.max((s[i][j] - s[j][i]).abs());
             }
         }
-        if asym > TOL_SYM_REL * sm {
+        if asym > t.sym * sm {
             viols.push(Violation::new("gmm.fit.covariance_not_symmetric", format!("{}: covariance {} = {:?} asymmetric by {:e}", cfg_txt, c, s, asym), at_model("symmetric")));
         }
-        if let Some(i) = (0..d).find(|&i| s[i][i] < cfg.reg * (1.0 - 1e-12)) {
+        if let Some(i) = (0..d).find(|&i| s[i][i] < reg * (1.0 - t.diag_rel)) {
             viols.push(Violation::new(
                 "gmm.fit.covariance_diagonal_below_reg_covar",
                 format!("{}: covariance {} has diagonal entry [{}] = {:e} < reg_covar {:e}", cfg_txt, c, i, s[i][i], cfg.reg),
@@ -498,8 +613,8 @@ fn run_fit(case: &Case, cfg: &Cfg, cnt: &mut Cnt, viols: &mut Vec<Violation>) ->
                 // numerically semi-definite matrices (possible only with reg_covar = 0) are a rounding
                 // question between two Cholesky implementations, not a verdict
                 let (vals, _) = refmath::jacobi_eig(&sym);
-                if cfg.reg == 0.0 && vals.last().map_or(false, |&l| l > -1e-12 * vals[0].abs()) {
-                    cnt.add("positive_definite_indeterminate_semi_definite_with_reg_0", 1);
+                if (cfg.reg == 0.0 || t.pd_any_reg) && vals.last().map_or(false, |&l| l > -t.pd_rel * vals[0].abs()) {
+                    cnt.add("positive_definite_indeterminate_numerically_semi_definite", 1);
                     continue;
                 }
                 viols.push(Violation::new("gmm.fit.covariance_not_positive_definite", format!("{}: covariance {} = {:?} has no Cholesky factor", cfg_txt, c, s), at_model("positive_definite")));
@@ -520,8 +635,8 @@ fn run_fit(case: &Case, cfg: &Cfg, cnt: &mut Cnt, viols: &mut Vec<Violation>) ->
 
     // precisions x covariances = I
     for c in 0..k {
-        let tol_ps = ERR_COND * comps[c].cond + 1e-12;
-        if !(tol_ps <= 1e-6) {
+        let tol_ps = t.ps_cond * comps[c].cond + t.ps_floor;
+        if !(tol_ps <= t.ps_skip) {
             cnt.add("precision_checks_indeterminate_cond_too_large", 1);
             continue;
         }
@@ -544,11 +659,11 @@ fn run_fit(case: &Case, cfg: &Cfg, cnt: &mut Cnt, viols: &mut Vec<Violation>) ->
     }
 
     // moment identities of an M-step with responsibilities whose rows sum to one
-    let m = refmath::col_means(&case.data);
-    let total = refmath::covariance(&case.data, 0.0);
+    let m = refmath::col_means(&data);
+    let total = refmath::covariance(&data, 0.0);
     let mix_mean: Vec<f64> = (0..d).map(|j| (0..k).map(|c| w[c] * mu[c][j]).sum::<f64>() / wsum).collect();
-    if (wsum - 1.0).abs() <= TOL_SUM {
-        if let Some(j) = (0..d).find(|&j| (mix_mean[j] - m[j]).abs() > TOL_MOMENT_REL * (1.0 + xmax)) {
+    if (wsum - 1.0).abs() <= t.wsum {
+        if let Some(j) = (0..d).find(|&j| (mix_mean[j] - m[j]).abs() > t.moment * (1.0 + xmax)) {
             viols.push(Violation::new(
                 "gmm.fit.mixture_mean_differs_from_data_mean",
                 format!("{}: sum_k w_k mu_k [{}] = {} but the data mean is {}", cfg_txt, j, mix_mean[j], m[j]),
@@ -564,11 +679,11 @@ fn run_fit(case: &Case, cfg: &Cfg, cnt: &mut Cnt, viols: &mut Vec<Violation>) ->
             }
         }
         for i in 0..d {
-            mix[i][i] -= cfg.reg;
+            mix[i][i] -= reg;
         }
         // absolute floor (1e-10 (1 + max|x|))^2: the square of the rounding of a mean, which is all that is
         // left when every row is the same point and reg_covar = 0 (population covariance exactly 0)
-        let tol_m = TOL_MOMENT_REL * (max_abs(&total) + cfg.reg) + (1e-10 * (1.0 + xmax)).powi(2);
+        let tol_m = t.moment * (max_abs(&total) + reg) + (t.mean_round * (1.0 + xmax)).powi(2);
         let mut worst = (0.0f64, 0usize, 0usize);
         for i in 0..d {
             for j in 0..d {
@@ -598,7 +713,7 @@ fn run_fit(case: &Case, cfg: &Cfg, cnt: &mut Cnt, viols: &mut Vec<Violation>) ->
         x: Vec<f64>,
     }
     let mut qs: Vec<Q> = Vec::new();
-    for (i, r) in case.data.iter().enumerate() {
+    for (i, r) in data.iter().enumerate() {
         qs.push(Q { kind: format!("train{}", i), x: r.clone() });
     }
     for c in 0..k {
@@ -606,18 +721,19 @@ fn run_fit(case: &Case, cfg: &Cfg, cnt: &mut Cnt, viols: &mut Vec<Violation>) ->
     }
     let dd = dirs(d);
     for c in 0..k {
-        for &s in &SCALES {
+        for &s in t.scales {
             for (name, u) in &dd {
                 let y = fwd(&comps[c].l, u);
                 let un: f64 = y.iter().map(|v| v * v).sum::<f64>().sqrt();
-                let t = s / un;
-                let x: Vec<f64> = (0..d).map(|j| mu[c][j] + t * u[j]).collect();
+                let tt = s / un;
+                // rounded to the subject's float type: the reference sees the same point
+                let x: Vec<f64> = (0..d).map(|j| f64_of(F::cast(mu[c][j] + tt * u[j]))).collect();
                 qs.push(Q { kind: format!("comp{}:{}sd:{}", c, s, name), x });
             }
         }
     }
     let nq = qs.len();
-    let qarr = Array2::from_shape_fn((nq, d), |(i, j)| qs[i].x[j]);
+    let qarr = Array2::from_shape_fn((nq, d), |(i, j)| F::cast(qs[i].x[j]));
     cnt.add("queries", nq as u64);
     let at_q = |i: usize, q: &Q| cj(json!({"phase": "query", "query_index": i, "query_kind": q.kind, "query": q.x}));
 
@@ -660,7 +776,7 @@ fn run_fit(case: &Case, cfg: &Cfg, cnt: &mut Cnt, viols: &mut Vec<Violation>) ->
     };
     let mut train_resp = vec![0.0f64; k];
     for (i, q) in qs.iter().enumerate() {
-        let row: Vec<f64> = proba.row(i).to_vec();
+        let row: Vec<f64> = proba.row(i).iter().map(|&v| f64_of(v)).collect();
         let refs: Vec<(f64, f64)> = comps.iter().map(|c| c.wlp(&q.x)).collect();
         let wl: Vec<f64> = refs.iter().map(|r| r.0).collect();
         if i < n {
@@ -668,16 +784,16 @@ fn run_fit(case: &Case, cfg: &Cfg, cnt: &mut Cnt, viols: &mut Vec<Violation>) ->
                 train_resp[c] += p;
             }
         }
-        let errs: Vec<f64> = refs.iter().zip(&comps).map(|((l, maha), c)| ERR_COND * c.cond * (maha + d as f64) + 1e-13 * l.abs()).collect();
+        let errs: Vec<f64> = refs.iter().zip(&comps).map(|((l, maha), c)| t.err_cond * c.cond * (maha + d as f64) + t.err_cond * l.abs()).collect();
         let err_max = errs.iter().cloned().fold(0.0f64, f64::max);
         let wl_max = wl.iter().cloned().fold(f64::NEG_INFINITY, f64::max);
         // regime: can any exp() of the reference weighted log densities be computed without loss?
         // slack of the classification: the discrepancy bound, but never more than 5 % of the value (an
         // ill-conditioned model must not widen the regime in which the narrow signatures apply)
         let slack = 1.0 + err_max.min(0.05 * wl_max.abs());
-        let low_regime = wl_max < LN_MIN_NORMAL + slack;
+        let low_regime = wl_max < t.ln_min_normal + slack;
         if low_regime {
-            if wl_max < -745.2 {
+            if wl_max < t.ln_zero {
                 cnt.add("queries_every_density_underflows_to_0", 1);
             } else {
                 cnt.add("queries_largest_density_subnormal", 1);
@@ -689,7 +805,7 @@ fn run_fit(case: &Case, cfg: &Cfg, cnt: &mut Cnt, viols: &mut Vec<Violation>) ->
         let mut row_valid = false;
         if row.iter().any(|v| !v.is_finite()) {
             if low_regime && all_pos_inf {
-                note(SIG_INF, i, format!("query {} = {:?}: predict_proba row {:?}; reference weighted log densities {:?} (all below ln(min subnormal) = -745.13, so every exp() is 0, the sum 0, its ln -inf); expected posterior {:?}", q.kind, q.x, row, wl, posterior(&wl)));
+                note(SIG_INF, i, format!("query {} = {:?}: predict_proba row {:?}; reference weighted log densities {:?} (all below ln(min subnormal) = {}, so every exp() is 0, the sum 0, its ln -inf); expected posterior {:?}", q.kind, q.x, row, wl, t.ln_zero, posterior(&wl)));
             } else {
                 note("gmm.predict_proba.non_finite_row", i, format!("query {} = {:?}: predict_proba row {:?}; reference weighted log densities {:?}", q.kind, q.x, row, wl));
             }
@@ -697,12 +813,12 @@ fn run_fit(case: &Case, cfg: &Cfg, cnt: &mut Cnt, viols: &mut Vec<Violation>) ->
             note("gmm.predict_proba.negative_probability", i, format!("query {} = {:?}: predict_proba row {:?}", q.kind, q.x, row));
         } else {
             let s: f64 = row.iter().sum();
-            if (s - 1.0).abs() > TOL_SUM {
+            if (s - 1.0).abs() > t.sum {
                 // subnormal band only: below it the un-shifted sum is exactly 0 and the row is all inf
-                if low_regime && wl_max >= -745.2 - slack {
+                if low_regime && wl_max >= t.ln_zero - slack {
                     note(SIG_SUBNORMAL, i, format!("query {} = {:?}: predict_proba row {:?} sums to {} (|sum-1| = {:e}); reference weighted log densities {:?}: the largest exp() is subnormal, so the un-shifted sum has lost its mantissa", q.kind, q.x, row, s, (s - 1.0).abs(), wl));
                 } else {
-                    note("gmm.predict_proba.row_does_not_sum_to_one", i, format!("query {} = {:?}: predict_proba row {:?} sums to {} (expected 1 +- {:e})", q.kind, q.x, row, s, TOL_SUM));
+                    note("gmm.predict_proba.row_does_not_sum_to_one", i, format!("query {} = {:?}: predict_proba row {:?} sums to {} (expected 1 +- {:e})", q.kind, q.x, row, s, t.sum));
                 }
             } else {
                 row_valid = true;
@@ -710,12 +826,12 @@ fn run_fit(case: &Case, cfg: &Cfg, cnt: &mut Cnt, viols: &mut Vec<Violation>) ->
         }
         // posterior of the published parameters
         if row_valid && !low_regime {
-            if err_max > ERR_SKIP {
+            if err_max > t.err_skip {
                 cnt.add("posterior_checks_indeterminate_error_bound_too_large", 1);
             } else {
                 cnt.add("posterior_checks", 1);
                 let p = posterior(&wl);
-                let tol = k as f64 * err_max + 1e-9;
+                let tol = k as f64 * err_max + t.prob_floor;
                 if let Some(c) = (0..k).find(|&c| (p[c] - row[c]).abs() > tol) {
                     note(
                         "gmm.predict_proba.differs_from_posterior_of_published_parameters",
@@ -734,12 +850,12 @@ fn run_fit(case: &Case, cfg: &Cfg, cnt: &mut Cnt, viols: &mut Vec<Violation>) ->
             }
             if !row.iter().any(|v| v.is_nan()) {
                 let rmax = row.iter().cloned().fold(f64::NEG_INFINITY, f64::max);
-                if !(row[c] >= rmax - 1e-12) {
+                if !(row[c] >= rmax - t.tie) {
                     note("gmm.predict.not_argmax_of_predict_proba_row", i, format!("query {} = {:?}: predict returned {} but predict_proba row is {:?}", q.kind, q.x, c, row));
                 }
             }
             let gap = wl_max - wl[c];
-            let margin = 2.0 * err_max + 1e-9 * (1.0 + wl_max.abs());
+            let margin = 2.0 * err_max + t.margin_rel * (1.0 + wl_max.abs());
             if gap > margin {
                 cnt.add("argmax_checks", 1);
                 let best = (0..k).find(|&j| wl[j] == wl_max).unwrap();
@@ -774,18 +890,93 @@ fn posterior(wl: &[f64]) -> Vec<f64> {
     wl.iter().map(|v| (v - lse).exp()).collect()
 }
 
+/// Outcome-kind oracle for "failure to converge is reported as an error" without a reference EM.
+/// (1) With max_n_iterations = 1 no run can converge (the first lower-bound change is measured
+/// against -inf), so fit must return Err. (2) EM is deterministic for a fixed seed and the rng is only
+/// consumed by the initialisation; with n_runs = 1 an Ok at budget m means the tolerance was met at an
+/// iteration < m, so the fit with budget m + 10 walks the same iterations, stops at the same one and must
+/// return the bit-identical model.
+fn run_ladder(case: &Case, cfg: &Cfg, cnt: &mut Cnt, viols: &mut Vec<Violation>) -> bool {
+    let cj = |at: Value| single_case_json(case, cfg, at);
+    let cfg_txt = cfg_text(case, cfg);
+    cnt.add("fits", 1);
+    let m1 = match do_fit::<f64>(case, cfg, cfg.max_iter) {
+        Err(p) => {
+            viols.push(Violation::new("gmm.fit.panic", format!("fit panicked ({}): {}", cfg_txt, p), cj(json!({"phase": "fit"}))));
+            return false;
+        }
+        Ok(Err(e)) => {
+            cnt.add(&format!("err_at_budget_{}.{}", cfg.max_iter, error_kind(&e)), 1);
+            return cfg.max_iter == 1;
+        }
+        Ok(Ok(m)) => m,
+    };
+    cnt.add(&format!("ok_at_budget_{}", cfg.max_iter), 1);
+    if cfg.max_iter == 1 {
+        viols.push(Violation::new(
+            "gmm.fit.ok_with_single_iteration",
+            format!("{}: fit returned Ok although a single EM iteration can never meet the tolerance (its lower-bound change is measured against -inf): means {:?}", cfg_txt, m1.means()),
+            cj(json!({"phase": "ladder", "check": "single_iteration"})),
+        ));
+        return true;
+    }
+    if cfg.n_runs != 1 {
+        return false;
+    }
+    cnt.add("budget_pairs_checked", 1);
+    let bigger = cfg.max_iter + 10;
+    match do_fit::<f64>(case, cfg, bigger) {
+        Err(p) => viols.push(Violation::new("gmm.fit.panic", format!("fit with max_iter {} panicked ({}): {}", bigger, cfg_txt, p), cj(json!({"phase": "ladder"})))),
+        Ok(Err(e)) => viols.push(Violation::new(
+            "gmm.fit.ok_with_exhausted_budget.error_with_larger_budget",
+            format!("{}: Ok with max_n_iterations = {} (so the tolerance was met within the budget) but with {} the same fit is Err({})", cfg_txt, cfg.max_iter, bigger, e),
+            cj(json!({"phase": "ladder", "check": "larger_budget", "larger_budget": bigger})),
+        )),
+        Ok(Ok(m2)) => {
+            if m1 != m2 {
+                let dm = m1.means().iter().zip(m2.means().iter()).fold(0.0f64, |s, (a, b)| s.max((a - b).abs()));
+                viols.push(Violation::new(
+                    "gmm.fit.ok_with_exhausted_budget.model_changes_with_larger_budget",
+                    format!(
+                        "{}: Ok with max_n_iterations = {} means the tolerance was met within the budget, so {} iterations must give the bit-identical model; the means differ by up to {:e} (weights {:?} vs {:?}): the first fit ran out of iterations and was returned as converged",
+                        cfg_txt, cfg.max_iter, bigger, dm, m1.weights().to_vec(), m2.weights().to_vec()
+                    ),
+                    cj(json!({"phase": "ladder", "check": "larger_budget", "larger_budget": bigger})),
+                ));
+            }
+        }
+    }
+    true
+}
+
 fn run_case(case: &Case, viols: &mut Vec<Violation>) -> (Cnt, u64, u64) {
     let mut cnt = Cnt::default();
     let mut evals = 0u64;
     let mut nontrivial = 0u64;
     for cfg in case.configs() {
-        let ok = run_fit(case, &cfg, &mut cnt, viols);
+        let nt = match (case.kind.as_str(), case.float.as_str()) {
+            ("ladder", _) => run_ladder(case, &cfg, &mut cnt, viols),
+            (_, "f32") => run_fit::<f32>(case, &cfg, &TOLS_F32, &mut cnt, viols) && case.n_clusters >= 2,
+            _ => run_fit::<f64>(case, &cfg, &TOLS_F64, &mut cnt, viols) && case.n_clusters >= 2,
+        };
         evals += 1;
-        if ok && case.n_clusters >= 2 {
+        if nt {
             nontrivial += 1;
         }
     }
-    (cnt, evals, nontrivial)
+    // statistics of the f32 sweep and of the budget ladder are kept apart
+    let pfx = if case.kind == "ladder" {
+        "ladder."
+    } else if case.float == "f32" {
+        "f32."
+    } else {
+        ""
+    };
+    let mut out = Cnt::default();
+    for (k, v) in &cnt.0 {
+        out.0.insert(format!("{}{}", pfx, k), *v);
+    }
+    (out, evals, nontrivial)
 }
 
 fn replay_value(v: &Value) -> Vec<Violation> {
@@ -810,7 +1001,9 @@ fn main() {
         "case group = (catalogue dataset, component count 1..3 (1..4 for the duplicates family), initialiser KMeans|Random, rng seed 0..3 (quick) / 0..15 (thorough)); inside a group the full grid reg_covar {1e-6,1e-3,0.1} (+ 0 for the degenerate family; thorough: everywhere) x tolerance {1e-3,1e-5} x n_runs {1,3} x max_n_iterations {100, 5} is walked; \
          the catalogue = families {separated, overlapping, anisotropic (axis scales 0.2..3, rotated), far (blobs 1000 apart), degenerate (one constant coordinate / duplicated rows)} x features 1..3 (quick) / 1..6 (thorough) x {2,3} blobs x {10 rows each, 25/15/20 rows}, \
          plus the family duplicates = {20, 60} rows that are copies of only 1..3 distinct points inside the box [5,9]x[3,7]x[4,8] (origin outside), features 1..2 (quick) / 1..3 (thorough), fitted with 1..4 components (more components than distinct points empties a component) and reg_covar {0,1e-9,1e-6,1e-3,0.1}; every member is run; \
-         per successful fit the query menu = every training row, every component mean, and mean_k + t u for every component k, every u in {+-e_j} and {(+-1,..,+-1)/sqrt(d)}, t such that the Mahalanobis distance to component k is exactly s, s in {10,38,39,100,1e3,1e6}. \
+         per successful fit the query menu = every training row, every component mean, and mean_k + t u for every component k, every u in {+-e_j} and {(+-1,..,+-1)/sqrt(d)}, t such that the Mahalanobis distance to component k is exactly s, s in {10,30,35,38,39,100,1e3,1e6} (f32: {10,12,14,16,20,25,30,38,39,100,1e3,1e6}, covering the f32 exp underflow band). \
+         f32 sweep: GaussianMixtureModel<f32> on the separated / overlapping members with <= 2 features, components 1..3, both initialisers, seeds 0..3 / 0..7, reg_covar {1e-6,1e-3,0.1}, same remaining grid, same oracles with f32 tolerances (reference in f64 from the published f32 parameters and the f32-rounded data / queries). \
+         budget ladder (outcome kind): separated / overlapping / anisotropic members with <= 2 (quick) / 3 (thorough) features, same k / init / seeds, reg_covar {1e-6,0.1}, tolerance {1e-3,1e-5}, n_runs {1,3}, max_n_iterations m in {1,2,3,5,10}: m = 1 must be Err; with n_runs = 1 an Ok at m must be reproduced bit-identically by m + 10. \
          evaluation = one fit with all its parameter and query oracles; non-trivial = the fit returned a model with >= 2 components (an Err is an accepted outcome and counted per error kind); distinct by construction of the grid.",
     );
     ctx.assume("datasets are built from an LCG with fixed constants (bell-shaped deviates = centred sum of four uniforms), rounded to 6 decimals; VERIF_SEED does not enter; the dataset catalogue is a finite hand-made family, not a sample");
@@ -819,7 +1012,9 @@ fn main() {
     ctx.assume("'diagonal includes the regularisation' is made exact through the M-step moment identity sum_k w_k (S_k + (mu_k - m)(mu_k - m)^T) - reg I = population covariance of the data and sum_k w_k mu_k = data mean, relative 1e-9 (covariance: + absolute floor (1e-10 (1 + max|x|))^2); holds for ANY responsibilities whose rows sum to one, hence for every accepted EM iterate");
     ctx.assume("predict_proba rows: all finite, all >= 0, |sum - 1| <= 1e-9; predict: index < k and probability >= row maximum - 1e-12 (any member of the tie set)");
     ctx.assume("reference posterior: own Cholesky of the published covariances, weighted log densities, max-shifted log-sum-exp; discrepancy bound per component 1e-13 * cond * (mahalanobis^2 + d) + 1e-13 |log density|; probabilities compared with k * bound + 1e-9 when the bound <= 1e-4 (else indeterminate), only where the largest weighted log density is above ln(f64::MIN_POSITIVE) + 1 + min(bound, 5 % of its value) (the same slack delimits the regimes of the three narrow signatures: all-inf row only below that line, finite row with a wrong sum only between it and -745.2 - slack); predict must lie within 2 * bound + 1e-9 (1 + |max|) of the maximal reference weighted log density (else violation; smaller non-zero gaps indeterminate)");
-    ctx.assume("an Err from fit (NotConverged, EmptyCluster, LinalgError, KMeansError, MinMaxError, LowerBoundError) is an accepted outcome; InvalidValue for the valid grid, a panic, or an Ok model with non-finite parameters is a violation; f64 only");
+    ctx.assume("an Err from fit (NotConverged, EmptyCluster, LinalgError, KMeansError, MinMaxError, LowerBoundError) is an accepted outcome; InvalidValue for the valid grid, a panic, or an Ok model with non-finite parameters is a violation");
+    ctx.assume("f32 sweep tolerances: rows / weights sum 1e-5 / 5e-5, bounding box and moments 5e-5 relative (moment floor (1e-4 (1 + max|x|))^2), symmetry 1e-5, diagonal >= reg (1 - 1e-5), |P S - I| <= 1e-5 cond + 1e-5 (indeterminate above 1e-2), posterior bound 1e-5 * cond * (mahalanobis^2 + d) + 1e-5 |log density| (compared with k * bound + 1e-5, indeterminate above 1e-2), tie set 1e-6, arg-max margin 2 * bound + 1e-6 (1 + |max|), exp subnormal below -87.34 and 0 below -104; a covariance whose f64 Cholesky fails but whose smallest eigenvalue is above -1e-5 * largest is indeterminate");
+    ctx.assume("budget ladder: fit is deterministic for a fixed seed (the rng is consumed only by the initialisation, cloned from the parameters at every call) and with n_runs = 1 an Ok result means the EM loop broke at an iteration < max_n_iterations, so a larger budget is never used: models compared with == on every f64 of weights, means, covariances, precisions; with max_n_iterations = 1 the only lower-bound change is measured against -inf (or is NaN), which is never below a tolerance");
 
     let members = catalogue(ctx.thorough());
     let seeds: Vec<u64> = (0..ctx.pick(4u64, 16u64)).collect();
@@ -849,11 +1044,52 @@ fn main() {
                     tolerances: vec![1e-3, 1e-5],
                     n_runs: vec![1, 3],
                     max_iters: max_iters.clone(),
+                    kind: "sweep".to_string(),
+                    float: "f64".to_string(),
                 });
                 }
             }
         }
     }
+    // f32 sweep and budget ladder on sub-catalogues (every listed member is run)
+    let low_dim = |m: &Member, dmax: usize| m.data[0].len() <= dmax;
+    let sub_seeds: Vec<u64> = (0..ctx.pick(4u64, 8u64)).collect();
+    let mut f32_members = 0usize;
+    let mut ladder_members = 0usize;
+    for m in &members {
+        let is_f32 = (m.family == "separated" || m.family == "overlapping") && low_dim(m, 2);
+        let is_ladder = (m.family == "separated" || m.family == "overlapping" || m.family == "anisotropic") && low_dim(m, ctx.pick(2, 3));
+        f32_members += is_f32 as usize;
+        ladder_members += is_ladder as usize;
+        for k in 1..=3usize {
+            for init in ["kmeans", "random"] {
+                for &seed in &sub_seeds {
+                    let base = Case {
+                        dataset: m.id.clone(),
+                        family: m.family.to_string(),
+                        data: m.data.clone(),
+                        n_clusters: k,
+                        init: init.to_string(),
+                        seeds: vec![seed],
+                        reg_covars: vec![1e-6, 1e-3, 0.1],
+                        tolerances: vec![1e-3, 1e-5],
+                        n_runs: vec![1, 3],
+                        max_iters: max_iters.clone(),
+                        kind: "sweep".to_string(),
+                        float: "f32".to_string(),
+                    };
+                    if is_f32 {
+                        cases.push(base.clone());
+                    }
+                    if is_ladder {
+                        cases.push(Case { reg_covars: vec![1e-6, 0.1], max_iters: LADDER.to_vec(), kind: "ladder".to_string(), float: "f64".to_string(), ..base });
+                    }
+                }
+            }
+        }
+    }
+    ctx.extra("f32_catalogue_members", json!(f32_members));
+    ctx.extra("ladder_catalogue_members", json!(ladder_members));
     let expected_fits: u64 = cases.iter().map(|c| c.configs().len() as u64).sum();
     ctx.extra("catalogue_members", json!(members.len()));
     ctx.extra("catalogue", json!(members.iter().map(|m| format!("{} ({}x{})", m.id, m.data.len(), m.data[0].len())).collect::<Vec<_>>()));
@@ -867,10 +1103,10 @@ fn main() {
         let (cnt, evals, nontrivial) = run_case(c, &mut v);
         ctx.evals(evals, nontrivial);
         ctx.violations(v);
-        if cnt.0.get("fits_ok").cloned().unwrap_or(0) > 0 {
+        if c.kind == "sweep" && c.float == "f64" && cnt.0.get("fits_ok").cloned().unwrap_or(0) > 0 {
             families_ok.lock().unwrap().insert(format!("{}/k{}/{}", c.family, c.n_clusters, c.init));
         }
-        ctx.sample(|| json!({"dataset": c.dataset, "rows": c.data.len(), "features": c.data[0].len(), "first_row": c.data[0], "n_clusters": c.n_clusters, "init": c.init, "fits_in_group": c.configs().len(), "fits_ok": cnt.0.get("fits_ok"), "queries": cnt.0.get("queries")}));
+        ctx.sample(|| json!({"dataset": c.dataset, "rows": c.data.len(), "features": c.data[0].len(), "first_row": c.data[0], "n_clusters": c.n_clusters, "init": c.init, "kind": c.kind, "float": c.float, "fits_in_group": c.configs().len(), "counters": cnt.0}));
         totals.lock().unwrap().merge(&cnt);
     });
     let t = totals.lock().unwrap().clone();
@@ -882,14 +1118,14 @@ fn main() {
         }
     }
     for (k, v) in &t.0 {
-        if k == "max_log10_condition_number_x100" {
-            ctx.extra("max_log10_condition_number", json!(*v as f64 / 100.0));
+        if k.ends_with("max_log10_condition_number_x100") {
+            ctx.extra(&k.replace("_x100", ""), json!(*v as f64 / 100.0));
         } else {
             ctx.extra(k, json!(v));
         }
     }
     ctx.extra("family_x_k_x_init_combinations_with_a_successful_fit", json!(families_ok.lock().unwrap().len()));
-    let fits_run = t.0.get("fits").cloned().unwrap_or(0);
+    let fits_run = ["fits", "f32.fits", "ladder.fits"].iter().map(|k| t.0.get(*k).cloned().unwrap_or(0)).sum::<u64>();
     if fits_run != expected_fits {
         ctx.capped(&format!("{} of {} enumerated fits were run", fits_run, expected_fits));
     }
